@@ -3794,6 +3794,50 @@ fn main() {
             println!("iterator_view={} then {}", first, second);
             println!("view_ok={}", first == "a=1,b=1" && second == first);
         }
+        // scan_over_unopenable_table : two adjacent tables in one level >= 1; the database is reopened (cold table cache) on a file system
+        // that refuses to open one of them; a forward scan (second table unopenable) and a backward scan (first table unopenable)
+        // must return within 20 s - with or without an error, but they must return
+        "scan_over_unopenable_table" => {
+            use raindb::{RainDbIterator, ReadOptions, WriteOptions};
+            let mut verdicts = vec![];
+            for forward in [true, false] {
+                let fs = rdbv::faultfs::FaultFs::new();
+                let mk = |fs: &rdbv::faultfs::FaultFs| { let mut o = raindb::DbOptions::with_memory_env(); o.filesystem_provider = std::sync::Arc::new(fs.clone()); o.db_path = "db".to_string(); o.create_if_missing = true; o };
+                let o = mk(&fs);
+                let mut numbers = vec![];
+                {
+                    let db = raindb::DB::open(o.clone()).expect("open");
+                    for group in [["a", "b", "c"], ["m", "n", "p"]] {
+                        for k in group { db.put(WriteOptions::default(), k.as_bytes().to_vec(), b"v".to_vec()).unwrap(); }
+                        let _ = db.flush_for_verif();
+                        numbers.push(*v::table_numbers(&o).iter().max().unwrap());
+                    }
+                }
+                let db = std::sync::Arc::new(raindb::DB::open(mk(&fs)).expect("reopen"));
+                let bad = if forward { numbers[1] } else { numbers[0] };
+                fs.fail_open(&format!("/{}.rdb", bad));
+                let (tx, rx) = std::sync::mpsc::channel();
+                let db2 = std::sync::Arc::clone(&db);
+                std::thread::spawn(move || {
+                    let mut it = db2.new_iterator(ReadOptions::default()).unwrap();
+                    let mut seen = 0;
+                    let _ = if forward { it.seek_to_first() } else { it.seek_to_last() };
+                    while it.is_valid() && seen < 100 {
+                        seen += 1;
+                        if (if forward { it.next() } else { it.prev() }).is_none() { break; }
+                    }
+                    let _ = tx.send(seen);
+                });
+                match rx.recv_timeout(std::time::Duration::from_secs(20)) {
+                    Ok(seen) => verdicts.push(format!("{} scan returned after {} entries", if forward { "forward" } else { "backward" }, seen)),
+                    Err(_) => verdicts.push(format!("{} scan stuck", if forward { "forward" } else { "backward" })),
+                }
+                fs.fail_open("");
+            }
+            println!("scans={}", verdicts.join("; "));
+            println!("stuck={}", verdicts.iter().filter(|x| x.ends_with("stuck")).count());
+            std::process::exit(0);
+        }
         // manifest_codec : edits of trivial moves (file n deleted at level L, added at level L + 1) and a mixed edit are encoded
         // and decoded by the real codec
         "manifest_codec" => {
